@@ -108,3 +108,47 @@ func (h *sm3Hash) Sum(b []byte) []byte         { return append(b, SM3(h.buf)...)
 func (h *sm3Hash) Reset()                      { h.buf = h.buf[:0] }
 func (h *sm3Hash) Size() int                   { return 32 }
 func (h *sm3Hash) BlockSize() int              { return 64 }
+
+// sm3Stream is a streaming reference hasher (block buffering only), for inputs too large to hold.
+// It is cross-checked against the one-shot SM3 in the self-test.
+type sm3Stream struct {
+	v   [8]uint32
+	buf []byte
+	n   uint64
+}
+
+// NewSM3Stream returns a streaming reference hash.Hash.
+func NewSM3Stream() hash.Hash { h := &sm3Stream{}; h.Reset(); return h }
+
+func (h *sm3Stream) Reset()         { h.v = sm3IV; h.buf = h.buf[:0]; h.n = 0 }
+func (h *sm3Stream) Size() int      { return 32 }
+func (h *sm3Stream) BlockSize() int { return 64 }
+func (h *sm3Stream) Write(p []byte) (int, error) {
+	h.n += uint64(len(p))
+	h.buf = append(h.buf, p...)
+	i := 0
+	for ; i+64 <= len(h.buf); i += 64 {
+		sm3CF(&h.v, h.buf[i:i+64])
+	}
+	h.buf = append(h.buf[:0], h.buf[i:]...)
+	return len(p), nil
+}
+func (h *sm3Stream) Sum(b []byte) []byte {
+	v := h.v
+	m := append([]byte{}, h.buf...)
+	m = append(m, 0x80)
+	for len(m)%64 != 56 {
+		m = append(m, 0)
+	}
+	var lb [8]byte
+	binary.BigEndian.PutUint64(lb[:], h.n*8)
+	m = append(m, lb[:]...)
+	for i := 0; i < len(m); i += 64 {
+		sm3CF(&v, m[i:i+64])
+	}
+	out := make([]byte, 32)
+	for i := 0; i < 8; i++ {
+		binary.BigEndian.PutUint32(out[4*i:], v[i])
+	}
+	return append(b, out...)
+}
